@@ -114,6 +114,45 @@ CLAIMED = {
          "abstracted as 'may raise, do not change flag or link'; single device link per instrument; the tclab retry loop is unrolled 3 times. 21 driver defects were found: 4 repaired by "
          "fix: commits, 17 recorded per class as open known findings.",
     technique="effect-language translation + sound/complete abstract post analyser, per-class reflection, exhaustive fault-index injection"),
+ "C01": dict(category="proof", design_ref="7 (C01)",
+    text="Coq theorems on an executable transition system of the RPC call pipeline of one object (25 labels = atomic regions of rpc.py / messaging.py / context.py: issue, hand-off to the "
+         "socket thread, wire, queue, worker pop/exec/reply/reject, pending table, removal, context stop, connection loss; any number of local and remote caller threads and calls; "
+         "arbitrary request table saying what can be pickled and what each body yields): a future never holds two outcomes and an outcome is final; a call only receives the outcome of "
+         "its own request or a delivery error; the pinned tree loses calls (refuted by witness; repaired); on the repaired tree every issued call without outcome is accounted for in a stage "
+         "or the pending table, some continuation step is always enabled (no call waits forever) and a measure bounds the continuation (see evidence for which of these are discharged). "
+         "Tie: real contexts, proxies, worker and socket threads run under the deterministic scheduler with the fake network while the main thread removes the object / stops a context / "
+         "disconnects; the event trace recorded by outside probes must be a run of the model ending in the same outcomes and execution log (420 schedules quick, 7200 thorough); "
+         "independent oracle: exactly one outcome of an allowed class per call, no deadlock, no second assignment, surviving object serves.",
+    note="Trusted: Coq kernel+vm_compute; hand-written model validated by trace acceptance; dsched + fake loop/network (orderly loss only; sending to a closed peer fails at once); probes in "
+         "harness/rpcsim.py; one client connection; method bodies terminate; no rpc_timeout. Three defects found (unpicklable argument, unpicklable result, request handed to a stopping "
+         "socket thread: caller waited forever) were repaired by fix: commits.",
+    technique="labelled transition system + inductive invariants in Coq; trace acceptance of real schedules under a deterministic scheduler"),
+ "C02": dict(category="proof", design_ref="7 (C02)",
+    text="PARTIAL. Proved in Coq (all closed): one hop over a connection leaves payload, source object and destination object untouched and rewrites exactly the two context names; a reply "
+         "returns to the very future that issued the request; generated future addresses are pairwise distinct; under any number of concurrent callers in either placement a future holds "
+         "what executing ITS OWN request yields (corollary of the C01 model). Value fidelity of pickling is an assumed law (hypothesis), tested not proved: generated scalars, bytes, nested "
+         "containers, numpy arrays/scalars, named tuples, enums, exceptions pushed through direct call / local proxy / remote proxy x blocking / non-blocking must come back equal in type and "
+         "value; concurrent callers with distinguishable arguments under seeded schedules each get their own outcome. Tie of the hop model: two real _PeerTcpConnection objects, names from a "
+         "small pool incl. forged source/destination.",
+    note="Trusted: Coq kernel+vm_compute; CPython pickle (assumed law); dsched + fake network; rpc_timeout is a documented reserved keyword of the blocking proxy and is not forwarded.",
+    technique="record-level Coq lemmas + corollary of the RPC transition system; differential direct/local/remote testing"),
+ "C03": dict(category="proof", design_ref="7 (C03)",
+    text="4 Coq theorems (all closed) on the shared RPC pipeline model, for every reachable state, any number of local and remote callers and calls, blocking or not, every interleaving with "
+         "removal/stop/disconnect: per calling thread the execution log is in issue order; if b runs after a and both come from one thread then a was issued first; no request is executed "
+         "twice; the pipeline invariant (per caller everything still on its way is in issue order behind what has run). Tie: as C01 (trace acceptance incl. equality of the execution log) on "
+         "scenarios with 1-4 threads per context and bursts of non-blocking calls; oracle: method bodies never overlap (enter/exit records) and are entered in issue order per thread.",
+    note="Trusted: as C01. Hypothesis of the theorems: a calling thread lives in one context. Serial execution is structural in the model (one worker); that the real worker never overlaps "
+         "bodies is observed, not proved. Fairness between callers is not claimed.",
+    technique="inductive invariant (sorted filtered pipeline) in Coq; trace acceptance under a deterministic scheduler"),
+ "C10": dict(category="proof", design_ref="7 (C10)",
+    text="13 Coq theorems (all closed) for every interleaving of the runner's operations with the task thread's steps over an abstract value type, from one inductive invariant: run() at most "
+         "once and only after a successful start; stop first => never run and later start refused; second start refused; join enabled iff the thread exited and raises the task-run error iff "
+         "run ended with an exception other than the stop exception; is_running exactly in RUNNING; update_settings true iff a value was posted since the previous update and then the newest "
+         "value is held, whole; release only after join. Tie: real QMI_Context + make_task with scripted task classes under the deterministic scheduler (random, PCT, DFS with preemption "
+         "bound); every operation placed at its linearisation point; the model must accept the trace with equal results, run() count and thread-exit flag; independent oracle.",
+    note="Trusted: Coq kernel+vm_compute; hand model; dsched; observation hooks in c10.py. Each label is assumed atomic (regions under _state_cond, Event ops, single deque ops); the RPC worker "
+         "serialises runner methods; task scripts terminate (join on a never-ending task blocks by documentation and is exercised only as an expected deadlock).",
+    technique="LTS with inductive invariant over label lists; trace acceptance at linearisation points"),
 }
 
 REASONS = {}
